@@ -461,7 +461,7 @@ class CHECK(core.Check):
             except Exception:
                 return None
         if case["kind"] == "flo":
-            return trace_oracle(case["prog"], out)
+            return trace_oracle(floeng.expand(case["prog"]), out)
         if case["kind"] == "exen":
             got = parse_exen(out[0]) if out else None
             want = ref_exen(case["far"], case["nears"], case["fars"])
